@@ -70,6 +70,7 @@ pub struct WebSocketFramed<T, C, E, D> {
     encode_item: PhantomData<E>,
     decode_item: PhantomData<D>,
     buffer: Option<BytesMut>,
+    errored: bool,
 }
 
 impl<T, C, E, D> Unpin for WebSocketFramed<T, C, E, D> {}
@@ -80,7 +81,7 @@ where
     C: Encoder<E, Error = anyhow::Error> + Decoder<Item = D, Error = anyhow::Error> + Unpin,
 {
     pub fn new(stream: WebSocketStream<T>, codec: C) -> Self {
-        Self { stream, codec, encode_item: PhantomData, decode_item: PhantomData, buffer: None }
+        Self { stream, codec, encode_item: PhantomData, decode_item: PhantomData, buffer: None, errored: false }
     }
 }
 
@@ -94,6 +95,10 @@ where
 
     fn poll_next(mut self: Pin<&mut Self>, cx: &mut Context<'_>) -> Poll<Option<Self::Item>> {
         loop {
+            // like FramedRead: a decoder that failed is out of step with its peer, nothing after the error is decoded
+            if self.errored {
+                return Poll::Ready(None);
+            }
             match ready!(self.stream.poll_next_unpin(cx)) {
                 Some(Ok(msg)) => {
                     if msg.is_binary() || msg.is_text() {
@@ -115,7 +120,10 @@ where
                             Ok(Some(item)) => return Poll::Ready(Some(Ok(item))),
                             // not enough for a frame yet: poll the socket again (it registers the waker), never park without one
                             Ok(None) => continue,
-                            Err(e) => return Poll::Ready(Some(Err(e))),
+                            Err(e) => {
+                                self.errored = true;
+                                return Poll::Ready(Some(Err(e)));
+                            }
                         }
                     }
                     continue;
